@@ -11,6 +11,7 @@ import baize.multipart_helper as helper_mod
 from baize.datastructures import UploadFile
 from baize.exceptions import HTTPException
 from baize.multipart import (Data, Epilogue, Field, File, MultipartDecoder, NeedData, Preamble)
+from baize.multipart import State as _MPState
 
 from .common import dec_bytes, dec_text, enc, exc_name
 
@@ -216,6 +217,7 @@ def enc_chunks(chunks):
 
 class _Rec:
     held = 0
+    dheld = 0
 
 
 class RecordingDecoder(MultipartDecoder):
@@ -225,6 +227,8 @@ class RecordingDecoder(MultipartDecoder):
         ev = super().next_event()
         if isinstance(ev, (NeedData, Epilogue)):
             _Rec.held = max(_Rec.held, len(self.buffer))
+            if self.state is _MPState.DATA:
+                _Rec.dheld = max(_Rec.dheld, len(self.buffer))
         return ev
 
 
@@ -265,6 +269,7 @@ def run_events(boundary, charset, chunks):
 
 def run_stream(boundary, charset, max_parts, max_mem, chunks, is_async):
     _Rec.held = 0
+    _Rec.dheld = 0
     kw = dict(file_factory=UploadFile, max_form_parts=max_parts, max_form_memory_size=max_mem)
     try:
         if is_async:
@@ -283,12 +288,12 @@ def run_stream(boundary, charset, max_parts, max_mem, chunks, is_async):
         else:
             items = helper_mod.parse_stream(iter(chunks), boundary, charset, **kw)
     except Exception as exc:  # noqa
-        return "%s held=%d" % (exc_name(exc), _Rec.held)
+        return "%s held=%d dheld=%d" % (exc_name(exc), _Rec.held, _Rec.dheld)
     text = r_items(items, lambda f: f.read())
     for _, v in items:
         if not isinstance(v, str):
             v.close()
-    return "ok %s held=%d" % (text, _Rec.held)
+    return "ok %s held=%d dheld=%d" % (text, _Rec.held, _Rec.dheld)
 
 
 class ChunkInput:
